@@ -195,6 +195,20 @@ def is_pyint(t):
     return False
 
 
+def is_boolean(t):
+    """the term certainly evaluates to True or False"""
+    tag = t[0]
+    if tag == 'c':
+        return isinstance(t[1], bool)
+    if tag in ('cmp', 'not'):
+        return True
+    if tag in ('and', 'or'):
+        return all(is_boolean(x) for x in t[1])
+    if tag == 'call' and t[1][0] == 'b' and t[1][1] in ('isinstance', 'hasattr', 'callable', 'bool', 'any', 'all', 'issubclass'):
+        return True
+    return False
+
+
 def is_bytes(t):
     tag = t[0]
     if tag == 'c':
@@ -355,7 +369,8 @@ def mk_neg(b, opts=None):
     return mk_bin('*', C(-1), b, opts)
 
 
-SEQ_METHODS = {'split', 'bitlist', 'span', 'keys', 'values', 'items', 'unpack', 'indices', 'bytes', 'copy', 'encode', 'digest', 'hex'}
+SEQ_METHODS = {'split', 'bitlist', 'span', 'keys', 'values', 'items', 'unpack', 'indices', 'bytes', 'copy', 'encode', 'digest', 'hex',
+               'zfill', 'ljust', 'rjust', 'format', 'join', 'strip', 'lstrip', 'rstrip', 'replace', 'lower', 'upper', 'decode', 'translate'}
 SEQ_BUILTINS = {'list', 'tuple', 'bytes', 'bytearray', 'sorted', 'str', 'unpack', 'pack'}
 
 
@@ -394,7 +409,7 @@ def canon_seq(S, opts=None):
         if d != 0 and all(vals[i + 1] - vals[i] == d for i in range(len(vals) - 1)):
             # an arithmetic progression written out (e.g. a folded reversed(range(n))): closed form
             return C(len(vals)), (lambda k: mk_bin('+', C(vals[0]), mk_bin('*', C(d), k, opts), opts))
-    ok = tag in ('arg', 'attr', 'g', 'idx', 'phi', 'after', 'afterlocal', 'hoist', 'upd', 'list', 'tuple', 'comp', '+', '*', 'sym', 'ite', 'mut', 'obj')
+    ok = tag in ('arg', 'attr', 'g', 'idx', 'phi', 'after', 'afterlocal', 'hoist', 'upd', 'list', 'tuple', 'comp', '+', '*', 'sym', 'ite', 'mut', 'obj', 'fstr')
     if tag == 'c' and isinstance(S[1], (bytes, str)):
         ok = True
     if tag == 'call' and not ok:
@@ -507,6 +522,18 @@ def percent_format(fmt, arg):
     return mk_fstr(parts)
 
 
+def mk_comp(kind, d, elt, gens):
+    """[x for x in S] is list(S)"""
+    if kind == 'list' and len(gens) == 1 and not gens[0][1]:
+        it = gens[0][0]
+        if elt == ('bv', d, 0):
+            return ('call', ('b', 'list'), (it,), ())
+        if it[0] == 'range' and it[1] == C(0) and it[3] == C(1) and elt[0] == 'idx' and elt[2] == ('bv', d, 0, 'num') \
+                and it[2] == _len_of(elt[1]) and not mentions(elt[1], lambda x: x[0] == 'bv' and x[1] == d):
+            return ('call', ('b', 'list'), (elt[1],), ())
+    return ('comp', kind, d, elt, gens)
+
+
 def force_num(t, opts=None):
     """t is known not to be a Python sequence: rebuild `+` inside it as the commutative sum"""
     if t[0] == '+':
@@ -571,6 +598,8 @@ def mk_bin(op, a, b, opts=None):
         if a[0] == b[0] and a[0] in ('list', 'tuple'):
             if len(a[1]) + len(b[1]) <= MAX_FOLD_LEN:
                 return (a[0], a[1] + b[1])
+    if op == '*' and ((a == C(0) and is_pyint(b)) or (b == C(0) and is_pyint(a))):
+        return C(0)
     if op == '*' and not (opts is not None and opts.ordered):
         # linear normal form: an integer constant distributes over a numeric sum
         for cst, sm in ((a, b), (b, a)):
@@ -815,6 +844,10 @@ def mk_ite(c, a, b):
     c, flipped = canon_cond(c)
     if flipped:
         a, b = b, a
+    if a == C(True) and b == C(False) and is_boolean(c):
+        return c
+    if a == C(False) and b == C(True) and is_boolean(c):
+        return mk_not(c)
     # nested conditionals sharing a branch are one conjunction (evaluation order kept)
     if a[0] == 'ite' and a[3] == b:
         return mk_ite(mk_bool('and', [c, a[1]]), a[2], b)
@@ -857,8 +890,16 @@ def _distinct_idx(i, j):
     return False
 
 
+REV = ('slice', ('c', None), ('c', None), ('c', -1))
+
+
 def get_idx(seq, idx):
     tag = seq[0]
+    if idx == REV and tag == 'idx' and seq[2] == REV:
+        return seq[1]                      # x[::-1][::-1]
+    if tag == 'call' and seq[1] == ('b', 'list') and len(seq[2]) == 1 and not seq[3] and canon_seq(seq[2][0]) is not None \
+            and seq[2][0][0] != 'call':
+        return get_idx(seq[2][0], idx) if not (idx[0] == 'slice') else ('idx', seq, idx)
     if tag in ('list', 'tuple'):
         if is_int(idx):
             n = len(seq[1])
@@ -945,6 +986,27 @@ def set_idx(seq, idx, val):
 
 PURE_BUILTINS = {'len', 'abs', 'min', 'max', 'int', 'bool', 'str', 'bytes', 'sum', 'divmod', 'isinstance', 'hasattr',
                  'tuple', 'sorted', 'ord', 'chr', 'float', 'round', 'pow', 'any', 'all', 'range', 'hex', 'bin', 'getattr'}
+
+
+def owned_fresh(t):
+    """t is a sequence object created by this function (a comprehension, a literal, list(...)/sorted(...), a slice copy,
+    a concatenation) - not a parameter, an attribute or anything reached through them: updating it in place cannot be seen outside"""
+    tag = t[0]
+    if tag in ('list', 'comp'):
+        return True
+    if tag == 'call' and t[1][0] == 'b' and t[1][1] in ('list', 'sorted', 'bytearray'):
+        return True
+    if tag == 'idx' and t[2][0] == 'slice':
+        return True                      # a slice is a new list
+    if tag in ('+', '*') and kind_of(t) == 'seq':
+        return True
+    if tag == 'mut':
+        return owned_fresh(t[2])
+    if tag == 'upd':
+        return owned_fresh(t[1])
+    if tag == 'ite':
+        return owned_fresh(t[2]) and owned_fresh(t[3])
+    return False
 
 
 def is_alloc(t):
@@ -1310,7 +1372,7 @@ class PE:
             elt = elt_fn(env2)
         finally:
             self.lam_depth -= 1
-        return None, ('comp', kind, d, elt, tuple(gl))
+        return None, mk_comp(kind, d, elt, tuple(gl))
 
     def _comp_result(self, r, wrap):
         if isinstance(r, list):
@@ -1403,6 +1465,8 @@ class PE:
                     new = ('list', ())
             except (IndexError, ValueError):
                 new = None
+        if new is None and meth == 'reverse' and not args and owned_fresh(cur):
+            new = get_idx(cur, ('slice', NONE, NONE, C(-1)))        # l.reverse()  is  l = l[::-1]  on a list the function created
         if new is None:
             new = ('mut', meth, cur, tuple(args))
             if meth in ('remove', 'add', 'discard'):
@@ -1433,6 +1497,16 @@ class PE:
             return ('dict', tuple(sorted(((C(k[1]), k[2]) for k in kw), key=lambda kv: skey(kv[0]))))
         if f[0] == 'b' and f[1] == 'bytes' and len(args) == 1 and not kw and is_bytes(args[0]):
             return args[0]                                    # bytes(b) of a bytes value is b
+        if f[0] == 'b' and f[1] == 'reversed' and len(args) == 1 and not kw and args[0][0] != 'range' \
+                and canon_seq(args[0], self.opts) is not None and iter_items(args[0]) is None:
+            return get_idx(args[0], REV)                      # reversed(x) of an indexable value is x[::-1]
+        if f[0] == 'b' and f[1] == 'iter' and len(args) == 1 and not kw and canon_seq(args[0], self.opts) is not None:
+            return args[0]                                    # iter(x) of an indexable value, consumed by a loop
+        if f[0] == 'b' and f[1] == 'int' and len(args) == 1 and not kw and args[0][0] in ('cmp', 'not', 'and', 'or'):
+            return mk_ite(args[0], C(1), C(0))                # int(condition)
+        if f[0] == 'b' and f[1] == 'divmod' and len(args) == 2 and not kw and is_int(args[1]) and type(args[1][1]) is int \
+                and kind_of(args[0]) != 'seq':
+            return ('tuple', (mk_bin('//', args[0], args[1], self.opts), mk_bin('%', args[0], args[1], self.opts)))
         if f[0] == 'b' and f[1] == 'divmod' and len(args) == 2 and not kw and is_pyint(args[0]) and is_pyint(args[1]):
             return ('tuple', (mk_bin('//', args[0], args[1], self.opts), mk_bin('%', args[0], args[1], self.opts)))
         if f[0] in ('g', 'b') and f[1] == 'reduce' and len(args) in (2, 3) and not kw and args[0][0] == 'lam' and args[0][1] == 2:
@@ -1577,6 +1651,17 @@ class PE:
 
     def fold_method(self, base, meth, args):
         try:
+            if base == ('b', 'bytes') and meth == 'fromhex' and len(args) == 1 and is_c(args[0]) and isinstance(args[0][1], str):
+                return C(bytes.fromhex(args[0][1]))
+            if base == ('b', 'int') and meth == 'from_bytes' and len(args) == 2 and all(is_c(a) for a in args) \
+                    and isinstance(args[0][1], bytes) and args[1][1] in ('little', 'big'):
+                return C(int.from_bytes(args[0][1], args[1][1]))
+            if base in (('g', 'struct'), ('b', 'struct')) and meth == 'unpack' and len(args) == 2 and all(is_c(a) for a in args) \
+                    and isinstance(args[0][1], str) and isinstance(args[1][1], bytes):
+                import struct as _struct
+                return ('tuple', tuple(C(x) for x in _struct.unpack(args[0][1], args[1][1])))
+            if is_int(base) and meth == 'to_bytes' and len(args) == 2 and is_int(args[0]) and is_c(args[1]) and args[1][1] in ('little', 'big'):
+                return C(base[1].to_bytes(args[0][1], args[1][1]))
             if is_c(base) and isinstance(base[1], (str, bytes)):
                 if meth in ('split', 'join', 'ljust', 'rjust', 'zfill', 'replace', 'rfind', 'find', 'strip',
                             'upper', 'lower', 'encode', 'decode', 'index', 'count', 'startswith', 'endswith',
@@ -1711,8 +1796,9 @@ class PE:
             return True
         if isinstance(s, ast.Assert):
             c = self.ev(s.test, env)
-            if truth(c) is not True:
-                effects.append(('assert', c))
+            for c1 in (c[1] if c[0] == 'and' else (c,)):
+                if truth(c1) is not True:
+                    effects.append(('assert', c1))
             return False
         if isinstance(s, ast.Pass):
             return False
@@ -1885,6 +1971,14 @@ class PE:
         """effects after an `if` one of whose branches leaves belong to the other branch; then normalise each `if`"""
         out = []
         effs = list(effs)
+        # two consecutive ifs on the same (SSA) condition are one if
+        k_ = 0
+        while k_ + 1 < len(effs):
+            a_, b_ = effs[k_], effs[k_ + 1]
+            if a_[0] == 'if' and b_[0] == 'if' and a_[1] == b_[1] and not self._terminated(a_[2]) and not self._terminated(a_[3]):
+                effs[k_:k_ + 2] = [('if', a_[1], tuple(a_[2]) + tuple(b_[2]), tuple(a_[3]) + tuple(b_[3]))]
+            else:
+                k_ += 1
         for i, e in enumerate(effs):
             if e[0] == 'if':
                 A, B = self.tidy(e[2]), self.tidy(e[3])
@@ -2213,8 +2307,8 @@ class PE:
                                 elt = ('bv', d, 1)
                         else:
                             elt = e2
-                        comp = ('comp', 'list', d, elt, tuple(gens))
-                        if isrange and how != 'chain' and is_int(it[2]) and 0 <= it[2][1] <= 256:
+                        comp = mk_comp('list', d, elt, tuple(gens))
+                        if comp[0] == 'comp' and isrange and how != 'chain' and is_int(it[2]) and 0 <= it[2][1] <= 256:
                             # a constant trip count: the comprehension is the list of its elements (as a literal comprehension is)
                             items, okc = [], True
                             for k_ in range(it[2][1]):
